@@ -115,7 +115,7 @@ impl Property for C14 {
         "C14"
     }
     fn rule(&self) -> &'static str {
-        "proptest histories (<=30 quick / <=60 thorough ops) over 4 tokens (two Stellar asset contracts, one current-source InterchainToken, and a harness token that checks neither sign nor balance, so that the service's own amount checks are what is tested), 3 spenders, 6 receivers (three accounts, the gas service itself, the gas collector, the contract owner): pay_gas, add_gas, collect_fees, refund with amounts 0, -1, 1, small, exact balance, balance+1, i128::MAX (relative to the spender's balance for payments and to the service's balance for payouts), payouts authorised by the collector, by a stranger, by the (current) contract owner, or by nobody; attempts to take the service's custody through the token contracts themselves (transfer_from / burn_from as spender without any approval by the service, transfer / burn naming the service but signed by the attacker alone; attacker = stranger, token owner / issuer, token minter, collector, spender), which must all fail; deployments with distinct owner and collector or with one address holding both roles, and ownership transfers in the history (the collector role must stay where it was). Oracle: per-token running balance = paid + added - collected - refunded, compared with token.balance(service) and all spender/receiver balances after every step; payments need amount > 0 and move exactly that; payouts need the collector and never exceed the balance; one gas service event per movement carrying the same token and amount; refused calls leave the ledger snapshot identical. non-trivial = history touches >= 2 tokens and contains a successful payout; distinct by Debug hash. One case in four is an entry-point sweep (the exported functions of all shipped contracts read from the sources of the tree under test; entry points absent from the pinned inventory get 300 deterministic cases each and half of the random ones): one entry point is called on a fully deployed system whose gas service holds three tokens, arguments from pools of principals / contracts / tokens / boundary amounts, every require_auth satisfied by the host's mock and recorded; oracle: if the gas service's balance of any token decreased, the stored gas collector is among the recorded signers or is the called contract (cases where the mock let a contract sign are discarded); non-trivial = the call succeeded"
+        "proptest histories (<=30 quick / <=60 thorough ops) over 4 tokens (two Stellar asset contracts, one current-source InterchainToken, and a harness token that checks neither sign nor balance, so that the service's own amount checks are what is tested), 3 spenders, 6 receivers (three accounts, the gas service itself, the gas collector, the contract owner): pay_gas, add_gas, collect_fees, refund with amounts 0, -1, 1, small, exact balance, balance+1, i128::MAX (relative to the spender's balance for payments and to the service's balance for payouts), payouts authorised by the collector, by a stranger, by the (current) contract owner, or by nobody; attempts to take the service's custody through the token contracts themselves (and payments / top-ups naming the gas service itself as spender - and sender -, signed by nobody or by a stranger, which must be refused: nothing can be paid in that way) (transfer_from / burn_from as spender without any approval by the service, transfer / burn naming the service but signed by the attacker alone; attacker = stranger, token owner / issuer, token minter, collector, spender), which must all fail; deployments with distinct owner and collector or with one address holding both roles, and ownership transfers in the history (the collector role must stay where it was). Oracle: per-token running balance = paid + added - collected - refunded, compared with token.balance(service) and all spender/receiver balances after every step; payments need amount > 0 and move exactly that; payouts need the collector and never exceed the balance; one gas service event per movement carrying the same token and amount; refused calls leave the ledger snapshot identical. non-trivial = history touches >= 2 tokens and contains a successful payout; distinct by Debug hash. One case in four is an entry-point sweep (the exported functions of all shipped contracts read from the sources of the tree under test; entry points absent from the pinned inventory get 300 deterministic cases each and half of the random ones): one entry point is called on a fully deployed system whose gas service holds three tokens, arguments from pools of principals / contracts / tokens / boundary amounts, every require_auth satisfied by the host's mock and recorded; oracle: if the gas service's balance of any token decreased, the stored gas collector is among the recorded signers or is the called contract (cases where the mock let a contract sign are discarded); non-trivial = the call succeeded"
     }
     fn assumptions(&self) -> Vec<&'static str> {
         vec![
